@@ -1,4 +1,4 @@
-From Verif Require Import Lib.Base WriteLog.Model WriteLog.MapFacts WriteLog.Proofs WriteLog.ProofsApply WriteLog.PathLog WriteLog.PathLogProofs.
+From Verif Require Import Lib.Base WriteLog.Model WriteLog.MapFacts WriteLog.Proofs WriteLog.ProofsApply WriteLog.PathLog WriteLog.PathLogProofs WriteLog.PathStore WriteLog.PathStoreProofs WriteLog.LogCodec WriteLog.LogCodecProofs.
 From Coq Require Import Permutation.
 
 (* The write log built at commit, applied to the old contents, gives exactly
@@ -270,3 +270,137 @@ Theorem pathbadger_log_unservable_refuted :
     pb_served pos_of rootnode endv old ops = None.
 Proof. exact pathbadger_log_unservable_refuted_lem. Qed.
 Print Assumptions pathbadger_log_unservable_refuted.
+
+(* ---- the storage worker's diff sync (go/worker/storage/committee/worker.go) ---- *)
+(* an accepted sync, whatever the peer answered (duplicates, wrong order,
+   deletes of absent keys, inserts equal to existing, anything): the database
+   holds the announced root with contents hashing to it -- the announced
+   contents, unless root_of collides *)
+Theorem sync_root_sound :
+  forall (digest : Type) (digest_eqb : digest -> digest -> bool),
+  (forall a b, digest_eqb a b = true <-> a = b) ->
+  forall (root_of : kvmap -> digest) (strict : bool) (fin : option N) (d : db digest)
+         (prev this : root digest) (peer : writelog),
+  db_wf digest root_of d ->
+  accepted (snd (sync_root digest digest_eqb root_of strict fin d prev this peer)) = true ->
+  db_wf digest root_of (fst (sync_root digest digest_eqb root_of strict fin d prev this peer)) /\
+  holds_announced digest digest_eqb root_of
+    (fst (sync_root digest digest_eqb root_of strict fin d prev this peer)) this.
+Proof. exact sync_root_sound_lem. Qed.
+Print Assumptions sync_root_sound.
+
+Theorem sync_root_rejected :
+  forall (digest : Type) (digest_eqb : digest -> digest -> bool),
+  (forall a b, digest_eqb a b = true <-> a = b) ->
+  forall (root_of : kvmap -> digest) (strict : bool) (fin : option N) (d : db digest)
+         (prev this : root digest) (peer : writelog),
+  accepted (snd (sync_root digest digest_eqb root_of strict fin d prev this peer)) = false ->
+  fst (sync_root digest digest_eqb root_of strict fin d prev this peer) = d.
+Proof. exact sync_root_rejected_lem. Qed.
+Print Assumptions sync_root_rejected.
+
+(* retrying over any sequence of peer answers *)
+Theorem sync_with_peers_sound :
+  forall (digest : Type) (digest_eqb : digest -> digest -> bool),
+  (forall a b, digest_eqb a b = true <-> a = b) ->
+  forall (root_of : kvmap -> digest) (strict : bool) (fin : option N) (answers : list writelog)
+         (d : db digest) (prev this : root digest),
+  db_wf digest root_of d ->
+  let res := sync_with_peers digest digest_eqb root_of strict fin d prev this answers in
+  db_wf digest root_of (fst res) /\
+  (snd res = true -> holds_announced digest digest_eqb root_of (fst res) this) /\
+  (snd res = false -> fst res = d).
+Proof. exact sync_with_peers_sound_lem. Qed.
+Print Assumptions sync_with_peers_sound.
+
+Theorem sync_with_peers_live :
+  forall (digest : Type) (digest_eqb : digest -> digest -> bool),
+  (forall a b, digest_eqb a b = true <-> a = b) ->
+  forall (root_of : kvmap -> digest) (strict : bool) (fin : option N) (answers : list writelog)
+         (d : db digest) (prev this : root digest) (old : kvmap) (ops : list op) (wl : writelog),
+  db_wf digest root_of d -> sorted old ->
+  follows digest this prev = true ->
+  open_root digest digest_eqb root_of d prev = Some old ->
+  is_finalized fin (r_version this) = false ->
+  r_hash this = root_of (contents (run_batch old ops)) ->
+  Permutation (commit_writelog (run_batch old ops)) wl ->
+  In wl answers ->
+  snd (sync_with_peers digest digest_eqb root_of strict fin d prev this answers) = true.
+Proof. exact sync_with_peers_live_lem. Qed.
+Print Assumptions sync_with_peers_live.
+
+(* ---- pathbadger's write-log storage (PathStore.v) ---- *)
+(* the first candidate of a version is served as soon as it is committed *)
+Theorem pathbadger_get_after_commit :
+  forall (db : pbdb) (b : batch) (al : list aentry),
+  is_finalized (d_fin db) (fst (b_end b)) = false ->
+  has_rid db (b_end b) = false ->
+  follows_v (b_start b) (b_end b) = true ->
+  b_log b = make_internal al -> al <> [] ->
+  (forall k v p, In (k, Some (v, p)) al ->
+     exists n, view_at (view_seq0 db b) (b_root b) (fst (b_end b)) p = Some n /\
+               leaf_from_db n = (k, Some v)) ->
+  get_writelog (fst (commit db 0 b)) (b_start b) (b_end b) = GServed (strip al).
+Proof. exact get_after_commit_seq0_lem. Qed.
+Print Assumptions pathbadger_get_after_commit.
+
+(* a later candidate (non-zero sequence number) is refused while pending *)
+Theorem pathbadger_pending_refused :
+  forall (db : pbdb) (seq : N) (b : batch),
+  is_finalized (d_fin db) (fst (b_end b)) = false ->
+  has_rid db (b_end b) = false ->
+  follows_v (b_start b) (b_end b) = true ->
+  seq <> 0 ->
+  get_writelog (fst (commit db seq b)) (b_start b) (b_end b) = GNotFound.
+Proof. exact get_pending_nonzero_seq_lem. Qed.
+Print Assumptions pathbadger_pending_refused.
+
+(* what is served for a pair does not change under any later history *)
+Theorem pathbadger_served_log_stable :
+  forall (t : list tcall) (db : pbdb) (s e : rid),
+  Forall (later_call (fst e)) t ->
+  get_writelog (run_calls db t) s e = get_writelog db s e.
+Proof. exact served_log_stable_lem. Qed.
+Print Assumptions pathbadger_served_log_stable.
+
+(* chains: the log stored for a committed batch is served, after any later
+   history, and takes the start contents to the end contents *)
+Theorem pathbadger_chain_log_correct :
+  forall (db : pbdb) (b : batch) (t : list tcall) (old : kvmap) (ops : list op) (pos_of : bytes -> dbkey),
+  sorted old ->
+  is_finalized (d_fin db) (fst (b_end b)) = false ->
+  has_rid db (b_end b) = false ->
+  follows_v (b_start b) (b_end b) = true ->
+  b_log b = make_internal (annotate pos_of old ops) ->
+  commit_writelog (run_batch old ops) <> [] ->
+  (forall k v p, In (k, Some (v, p)) (annotate pos_of old ops) ->
+     exists n, view_at (view_seq0 db b) (b_root b) (fst (b_end b)) p = Some n /\
+               leaf_from_db n = (k, Some v)) ->
+  Forall (later_call (fst (b_end b))) t ->
+  exists wl, get_writelog (run_calls (fst (commit db 0 b)) t) (b_start b) (b_end b) = GServed wl /\
+             apply_writelog old wl = contents (run_batch old ops).
+Proof. exact chain_log_correct_lem. Qed.
+Print Assumptions pathbadger_chain_log_correct.
+
+(* the known finding on the storage model: three versions, the third
+   re-inserts the unchanged value of the embedded leaf: GetWriteLog fails *)
+Theorem pathbadger_store_unservable_refuted :
+  run_trace_case rf_trace =
+  [ OSeq 0; ODone; OGet (GServed [([99], Some [])]);
+    OSeq 0; ODone; OGet (GServed [([99; 97], Some [])]);
+    OSeq 0; ODone; OGet GError ].
+Proof. exact pathbadger_store_unservable_refuted_lem. Qed.
+Print Assumptions pathbadger_store_unservable_refuted.
+
+(* ---- the stored form of the internal log ---- *)
+Theorem decode_encode_log : forall (l : list ientry),
+  Forall ientry_wf l ->
+  Forall (fun e => N.of_nat (length (enc_entry e)) < 18446744073709551616) l ->
+  N.of_nat (length l) < 18446744073709551616 ->
+  decode_log (encode_log l) = Some l.
+Proof. exact decode_encode_log_lem. Qed.
+Print Assumptions decode_encode_log.
+
+Theorem decode_encode_entry : forall (e : ientry), ientry_wf e -> dec_entry (enc_entry e) = e.
+Proof. exact dec_entry_enc. Qed.
+Print Assumptions decode_encode_entry.
